@@ -14,6 +14,7 @@ caught = sum(1 for l in rows if l.split('|')[6].strip() not in ('-', ''))
 nothead = sum(1 for l in rows if 'not on HEAD' in l)
 s = re.sub(r'\*\*Reading the table\.\*\* \d+ of the \d+ changes', '**Reading the table.** %d of the %d changes' % (caught, n), s)
 s = re.sub(r'\): \d+\nseeded changes in all', '): %d\nseeded changes in all' % n, s)
+s = re.sub(r'delivered two\): \d+\nseeded changes in all', 'delivered two): %d\nseeded changes in all' % n, s)
 kf = json.load(open(os.path.join(ROOT, 'known_findings.json')))['findings']
 fixed = [f for f in kf if f['status'] == 'fixed']
 nfix = int(subprocess.run('git -C /repo log --format=%s | grep -c "^fix:"', shell=True, capture_output=True, text=True).stdout)
